@@ -32,7 +32,7 @@ func c26Call(id int64, f func()) { f() }
 
 // C26 — Concurrent use of a UConn is race-free, deadlock-free and consistent.
 func TestC26(t *testing.T) {
-	r := mon.New("C26", "per run one reader, one writer, 2-6 concurrent Handshake/HandshakeContext callers with their own contexts, Close/CloseWrite and cancellations at PRNG-chosen moments, random delays at every Read/Write of the transport (real suspension points) and at the uTLS handshake yield points (hook H10); scenarios: normal server, server that stalls (no I/O deadline: cancellation is the only way out), cancellation after return, benign runs without any I/O deadline (explicit handshake callers, or only Read and Write starting the handshake implicitly) in which every call must return successfully and the echo must complete. Oracle: zero race-detector reports; every call returns; each handshake caller returns nil only if the connection reports HandshakeComplete, or the shared handshake error, or its own context's error (then the connection is closed); cancelling a context after its call returned leaves the connection usable. distinct = interleaving signatures (order of call returns and tap events)")
+	r := mon.New("C26", "per run one reader, one writer, 2-6 concurrent Handshake/HandshakeContext callers with their own contexts, Close/CloseWrite and cancellations at PRNG-chosen moments, random delays at every Read/Write of the transport (real suspension points) and at the uTLS handshake yield points (hook H10); scenarios: normal server, server that stalls (no I/O deadline: cancellation is the only way out), cancellation after return, benign runs without any I/O deadline (explicit handshake callers, or only Read and Write starting the handshake implicitly) in which every call must return successfully and the echo must complete, and a TLS 1.2 server that sends a HelloRequest in the middle of the echo (the reader rebuilds the ClientHello and starts a renegotiation handshake while writer and callers are active). Oracle: zero race-detector reports; every call returns; each handshake caller returns nil only if the connection reports HandshakeComplete, or the shared handshake error, or its own context's error (then the connection is closed); cancelling a context after its call returned leaves the connection usable. distinct = interleaving signatures (order of call returns and tap events)")
 	defer r.Finish(t)
 	n := mon.Pick(500, 60000)
 	ids := []tls.ClientHelloID{tls.HelloChrome_133, tls.HelloFirefox_120, tls.HelloGolang, tls.HelloChrome_102, tls.HelloIOS_14, tls.HelloRandomizedALPN}
@@ -51,7 +51,11 @@ func TestC26(t *testing.T) {
 			// nodeadline / implicit: benign server, no cancellation, no Close and NO I/O deadline, so
 			// nothing but the code's own progress can make the calls return; in "implicit" nobody
 			// calls Handshake explicitly (Read and Write start it)
-			scenario := []string{"normal", "normal", "nodeadline", "stalled", "cancel-after", "close-race", "normal", "implicit"}[i%8]
+			// hellorequest: a TLS 1.2 server sends a HelloRequest in the middle of the echo, so the
+			// reader starts a renegotiation handshake (rebuilding the ClientHello) while the writer
+			// and the handshake callers are active; the in-repo server then refuses the
+			// renegotiation ClientHello and hangs up
+			scenario := []string{"normal", "normal", "nodeadline", "stalled", "cancel-after", "close-race", "normal", "implicit", "hellorequest"}[i%9]
 			id := ids[rg.Intn(len(ids))]
 			c, s, tap := peer.Pipe()
 			var seq int64
@@ -100,10 +104,42 @@ func TestC26(t *testing.T) {
 					time.Sleep(d)
 				}
 			}})
-			srv := tls.Server(s, peer.ServerConfig())
+			scfg := peer.ServerConfig()
+			if scenario == "hellorequest" {
+				scfg.MaxVersion = tls.VersionTLS12
+			}
+			srv := tls.Server(s, scfg)
 			srvDone := make(chan struct{})
 			var srvGot bytes.Buffer
-			if scenario != "stalled" {
+			if scenario == "hellorequest" {
+				after := rg.Intn(2)
+				go func() {
+					defer close(srvDone)
+					defer s.Close()
+					if err := srv.Handshake(); err != nil {
+						return
+					}
+					buf := make([]byte, 4096)
+					for k := 0; ; k++ {
+						if k == after {
+							if tls.VerifWriteRecord(srv, 22, []byte{0, 0, 0, 0}) != nil {
+								return
+							}
+							r.Count("hello_requests_sent", 1)
+						}
+						n, err := srv.Read(buf)
+						if n > 0 {
+							srvGot.Write(buf[:n])
+							if _, werr := srv.Write(buf[:n]); werr != nil {
+								return
+							}
+						}
+						if err != nil {
+							return
+						}
+					}
+				}()
+			} else if scenario != "stalled" {
 				go func() {
 					defer close(srvDone)
 					if err := srv.Handshake(); err != nil {
@@ -167,7 +203,7 @@ func TestC26(t *testing.T) {
 				if scenario == "cancel-after" {
 					mode = 3
 				}
-				if scenario == "nodeadline" {
+				if scenario == "nodeadline" || scenario == "hellorequest" {
 					mode = []int{0, 3}[rg.Intn(2)]
 				}
 				switch mode {
@@ -303,11 +339,19 @@ func TestC26(t *testing.T) {
 				return
 			}
 			complete := u.ConnectionState().HandshakeComplete
+			// hellorequest: a renegotiation that the server refuses legitimately leaves the
+			// connection with a failed second handshake after the callers of the first one
+			// returned nil, so caller consistency is not judged there: only races, returns and
+			// data integrity
+			judgeCallers := scenario != "hellorequest"
+			if !judgeCallers {
+				r.Count("hellorequest_runs", 1)
+			}
 			// consistency of handshake callers
 			var shared error
 			sharedSet := false
 			for _, cr := range results {
-				if !strings.HasPrefix(cr.name, "hs") {
+				if !strings.HasPrefix(cr.name, "hs") || !judgeCallers {
 					continue
 				}
 				switch {
@@ -426,6 +470,7 @@ func TestC26(t *testing.T) {
 	wgAll.Wait()
 	r.Count("distinct_interleavings", int64(len(sigs)))
 	r.Floor("handshakes_completed", int64(n/8))
+	r.Floor("hello_requests_sent", int64(n/15))
 	r.Floor("distinct_interleavings", 20)
 	r.Floor("own_context_errors", 10)
 	r.Floor("cancel_after_return_ok", 5)
